@@ -336,30 +336,7 @@ namespace smt
 
     SMT_EXPORT std::pair<inf_rational, inf_rational> rdl_theory::distance(const lin &from, const lin &to) const
     {
-        lin expr = from - to;
-        switch (expr.vars.size())
-        {
-        case 0:
-            return std::make_pair(inf_rational(expr.known_term), inf_rational(expr.known_term));
-        case 1:
-        {
-            expr = expr / expr.vars.cbegin()->second;
-            return distance(expr.vars.cbegin()->first, 0);
-        }
-        case 2:
-        {
-            expr = expr / expr.vars.cbegin()->second;
-            auto it = expr.vars.cbegin();
-            const auto [v0, c0] = *it++;
-            assert(c0 == rational::ONE);
-            const auto [v1, c1] = *it;
-            if (c1 != -rational::ONE)
-                throw std::invalid_argument("not a valid real difference logic constraint..");
-            return distance(v0, v1);
-        }
-        default:
-            throw std::invalid_argument("not a valid real difference logic constraint..");
-        }
+        return bounds(to - from); // the bounds of 'to - from'..
     }
 
     SMT_EXPORT bool rdl_theory::equates(const lin &l0, const lin &l1) const
